@@ -706,6 +706,60 @@ def rule_r17(prog, res):
               '(C08-R16)', 'C08', c08.rule_r16, prog, Result)
 
 
+def rule_r18(prog, res):
+    from . import c17
+    res.share('R18', 'with the default configuration the parser drops '
+              'comments and processing instructions before the readers see '
+              'the tree (C17-R6)', 'C17', c17.rule_clean_tree, prog, Result)
+
+
+def rule_r19(prog, res):
+    res.rule('R19', 'the root element XmlDocument writes lives in the target '
+             'namespace of the interface, where the schema declares the '
+             'message elements')
+    from .c07 import _local_values
+    x = prog.cls('spyne.protocol.xml:XmlDocument')
+    f = x.methods.get('serialize')
+    if f is None:
+        raise AnalysisError('XmlDocument.serialize', 'not found')
+    TNS = ('self.app.interface.get_tns()', 'self.app.interface.tns',
+           'self.app.tns')
+    n = 0
+    for c in calls_in(f.node):
+        if call_name(c) not in ('to_parent', 'incgen') or not (
+                isinstance(c.func, ast.Attribute) and
+                isinstance(c.func.value, ast.Name) and
+                c.func.value.id == 'self'):
+            continue
+        pos = 4 if call_name(c) == 'to_parent' else 3
+        ns = c.args[pos] if len(c.args) > pos else None
+        for k in c.keywords:
+            if k.arg == 'ns':
+                ns = k.value
+        if ns is None:
+            continue
+        n += 1
+        vals = [ns]
+        if isinstance(ns, ast.Name):
+            vals = _local_values(f.node, ns.id) or [ns]
+        texts = sorted({unparse(v).replace(' ', '') for v in vals})
+        ok = all(t in TNS for t in texts)
+        where = '%s:%d' % (f.module.relpath, c.lineno)
+        res.ob('R19', where, 'XmlDocument.serialize: %s(...) puts the root '
+               'element in %s' % (call_name(c), texts),
+               'ok' if ok else 'VIOLATED')
+        if not ok:
+            res.finding('R19', 'XmlDocument.serialize|root-namespace|%s' %
+                        call_name(c), where, 'the root element of the '
+                        'document is written in %s, not in the interface\'s '
+                        'target namespace: the schema declares every message '
+                        'element there, so a message whose class lives in '
+                        'another namespace is not an instance of the '
+                        'published schema (and not what the SOAP writers '
+                        'send)' % texts)
+    res.floor('R19', 'root writes in XmlDocument.serialize', n, 3)
+
+
 def run(prog, res, tier):
     res.run_rule(rule_shared2, prog, res)
     res.run_rule(rule_r1, prog, res)
@@ -722,6 +776,8 @@ def run(prog, res, tier):
     res.run_rule(rule_r15, prog, res)
     res.run_rule(rule_r16, prog, res)
     res.run_rule(rule_r17, prog, res)
+    res.run_rule(rule_r18, prog, res)
+    res.run_rule(rule_r19, prog, res)
 
 
 _X = 'spyne/protocol/xml.py'
@@ -729,6 +785,21 @@ _S = 'spyne/protocol/soap/soap11.py'
 _A = 'spyne/application.py'
 
 MUTANTS = [
+    Mutant('xml-root-in-message-namespace', 'R19', 'fire',
+           'spyne/protocol/xml.py',
+           in_func('XmlDocument.serialize',
+                   "result_inst, self.app.interface.get_tns(), name)\n"
+                   "\n        if self.cleanup",
+                   "result_inst, result_message_class.get_namespace(), name)"
+                   "\n\n        if self.cleanup"), 'root-namespace'),
+    Mutant('xml-root-tns-through-local', 'R19', 'twin',
+           'spyne/protocol/xml.py',
+           in_func('XmlDocument.serialize',
+                   "            name = result_message_class.get_element_name()"
+                   "\n",
+                   "            name = result_message_class.get_element_name()"
+                   "\n            tns_ = self.app.interface.get_tns()\n"),
+           None),
     Mutant('soap-header-version-constant', 'R15', 'fire',
            'spyne/protocol/soap/soap11.py',
            in_func('Soap11.serialize',
